@@ -427,3 +427,69 @@ def c06(tier, seed):
         "reference model. R6.4 finalize_into_dirty for every buffer position: one block for aligned messages, two otherwise, "
         "0x80/zeros/big-endian bit length, digest = tail of the state. R6.7 update counts bytes and feeds complete blocks.",
         trusted_base=["spec/jh.py", "engine/models.py", "engine/bv.py"], coverage_extra={"exhaustive": True})
+
+
+@check("C17")
+def c17(tier, seed):
+    r = Report("C17", tier, TV, seed)
+    facts.load("K1")
+    jobs = [(check_blake.c04_update, ("K1",)), (check_skein.c05_process_block, ("K1",)), (check_skein.c05_update, ("K1",)),
+            (check_groestl.c07_update, ("K1",)), (check_jh.c06_update, ("K1",))]
+    edge = _edge_positions()
+    for name in check_blake.VARIANTS:
+        jobs.append((check_blake.c04_finalize, ("K1", edge, name)))
+    for name in check_groestl.HASHERS:
+        jobs.append((check_groestl.c07_finalize, ("K1", name, edge)))
+    for name in check_jh.HASHERS:
+        jobs.append((check_jh.c06_finalize, ("K1", name, edge)))
+    par.run(r, jobs)
+    check_static.c17_structural(r)
+    r.floor("counter rule instances", len(r.holds) + len(r.violations), 280)
+    r.assumptions = ["the per-block functions are uninterpreted here; C04-C07 decide them for symbolic counter inputs, so exact counters imply conforming digests of long messages",
+                     "format limits: BLAKE t.1 overflow (2^64 / 2^128 bits), Skein 2^64 bytes, Groestl 2^64 blocks, JH 2^61 bytes are outside the domain"]
+    return r.finish(
+        "All counters are symbolic full-width words, so a result that holds here holds across every word boundary "
+        "(2^8, 2^16, 2^32, 2^64). R17.1 BLAKE update: t advances by 8*blocksize per block as a double-word sum with carry "
+        "into the high word, and finalisation encodes (t1:t0) + 8*position big-endian (boundary positions; all positions "
+        "under C04). Skein: t0 += byte count (symbolic). Groestl: block_counter += 1 per compressed block and the final "
+        "count = counter + 1 or 2 as a 64-bit big-endian value. JH: datalen += len and the length field = 8*datalen as a "
+        "64-bit big-endian value. R17.2 no narrowing integer cast is applied to a slice length or a counter field anywhere "
+        "in the hash crates (def-use taint over MIR; positive control). R17.3 the counter fields have 64-bit (pair-of-word) types.",
+        trusted_base=["engine/bv.py", "engine/models.py", "rustc MIR"], coverage_extra={"exhaustive": False})
+
+
+class _edge_positions:
+    def __call__(self, bb):
+        return sorted({0, 1, bb - 10, bb - 9, bb - 8, bb - 1} & set(range(bb)))
+
+
+from . import check_hashapi
+
+
+@check("C08")
+def c08(tier, seed):
+    r = Report("C08", tier, "other", seed)
+    f = facts.load("K1")
+    hs = check_hashapi.hashers(f)
+    jobs = [(check_hashapi.c08_shape, ("K1",)), (check_hashapi.c08_clone_reset, ("K1",))]
+    for t, fam, bb in hs:
+        jobs.append((check_hashapi.c08_chunking, ("K1", t)))
+    rets = par.run(r, jobs)
+    nchunk = sum(x for (fn, _), x in zip(jobs, rets) if fn is check_hashapi.c08_chunking and x)
+    r.floor("hasher types (12 + Skein instantiations)", len(hs), 15)
+    r.floor("chunking compositions", nchunk, 108 * 15)
+    ok, err = check_static.build_witness()
+    if ok:
+        r.ok("R8.4", "Clone + Default witnesses for the 15 hash types compile")
+    else:
+        r.violated("R8.4", "witness", "a hash type is no longer Clone + Default: %s" % err)
+    r.assumptions = ["per-block functions are uninterpreted (decided under C04-C07)", "statics/shared state: C18",
+                     "finalize_reset is digest's blanket `finalize_into_dirty; reset`"]
+    return r.finish(
+        "R8.1 recursive walk of the 19 instantiated hasher state types: only integers, arrays, SIMD registers, unions of "
+        "those and PhantomData - no reference, raw pointer, Rc/Arc/Box/Vec, Cell or atomic - so a bitwise copy shares "
+        "nothing. R8.2 (value graphs) clone(&s) returns s bit for bit and leaves s unchanged; reset(&mut s) leaves exactly "
+        "Default::default() for a fully symbolic prior state. R8.3 update(update(s,a),b) and update(s,a++b) leave identical "
+        "states (live buffer prefix, counters, chaining value) for symbolic contents, buffer positions {0,1,bs-1} and all "
+        "pairs of lengths from {0,1,bs-1,bs,bs+1,2bs+3}: 108 compositions per type. Finalisation is a function of the state "
+        "(C04-C07), so equal states give equal digests.", trusted_base=["engine/bv.py", "engine/models.py", "rustc type facts"])
